@@ -24,7 +24,7 @@ ASSUMPTIONS = [
     "a call is REQUIRED when an exposed attribute of the entity has no admissible value in common before and after the frame; FORBIDDEN when every record of the frame is byte-identical to the entity's previous report, after unsubscribe, with a foreign identifier, and for AC state-only subscribers on zone-only frames; everything else MAY notify",
     "how many times a required call is made for one frame is not constrained (a zone change reaches the AC's subscribers once per zone)",
 ]
-PROBES = ["c12.unsubscribe_during_held_up_update", "c12.change_inside_callback", "c12.identical_repeat", "c12.required_call", "c12.unsubscribed", "c12.raising", "c12.twin", "c12.state_only_zone_frame", "c12.unexposed_change", "c12.version"]
+PROBES = ["c12.awaiting_subscriber_finished", "c12.unsubscribe_during_held_up_update", "c12.change_inside_callback", "c12.identical_repeat", "c12.required_call", "c12.unsubscribed", "c12.raising", "c12.twin", "c12.state_only_zone_frame", "c12.unexposed_change", "c12.version"]
 
 
 def budget(tier: str) -> int:
@@ -244,6 +244,14 @@ def execute(sc: dict) -> dict:
                 calls_outside.append((f["k"], seq))
     if calls_outside:
         V.append(viol("C12.call_without_frame", {"calls": calls_outside[:5]}))
+    # a subscriber that was called must be allowed to finish: being cancelled at an await of its own (because a sibling
+    # raised, say) is "prevented from being called" in everything but name
+    cancelled = [(e[1], e[3]["k"]) for e in events if e[2] == "sub.cancelled"]
+    if any(e[2] == "sub.done" for e in events):
+        probes["c12.awaiting_subscriber_finished"] = 1
+    if cancelled and not V:
+        raisers = sorted({e[3]["k"] for e in events if e[2] == "sub.call" and e[3]["k"].endswith("R")})
+        V.append(viol("C12.subscriber_cancelled", {"sub": cancelled[0][1], "t": cancelled[0][0], "raising_subscribers_in_run": raisers[:6]}))
     ident = {"ac": lambda n: n, "zone": lambda n: n}
     for win in windows:
         if V:
